@@ -105,7 +105,9 @@ def cases(draw):
         st.fixed_dictionaries({"cls": st.integers(0, n - 1),
                                "wrappers": st.lists(st.sampled_from(WRAPPERS), max_size=1)}),
         min_size=1, max_size=4))
-    return {"n": n, "edges": edges, "roots": roots, "bases": bases}
+    # the parser de-duplicates titles by assigning `cls.__name__` afterwards: `__qualname__` (and `__module__`)
+    # are then the same for several classes
+    return {"n": n, "edges": edges, "roots": roots, "bases": bases, "renamed_after_creation": draw(st.integers(0, 2)) == 0}
 
 
 def build(case):
@@ -136,13 +138,17 @@ def build(case):
             kwargs["dependencies"] = {"lst": ["x"], **deps, "lst2": []}
         base = case.get("bases", {}).get(str(i))
         if base is None:
-            classes.append(Object.inline(f"C{i}", properties=props, **kwargs))
+            classes.append(Object.inline("C" if case.get("renamed_after_creation") else f"C{i}", properties=props,
+                                         **kwargs))
         else:
             # class C<i>(C<base>): inherits the base's properties (cloned) and un-overridden keywords
             classdict = ObjectClassDict()
             for name, prop in props.items():
                 classdict[name] = prop
-            classes.append(ObjectMeta(f"C{i}", (classes[base],), classdict, **kwargs))
+            classes.append(ObjectMeta("C" if case.get("renamed_after_creation") else f"C{i}", (classes[base],),
+                                      classdict, **kwargs))
+        if case.get("renamed_after_creation"):
+            classes[-1].__name__ = f"C{i}"
     for k, e in enumerate(x for x in case["edges"] if x["late"]):
         el = classes[e["to"]]
         for w in reversed(e["wrappers"]):
@@ -160,13 +166,28 @@ def effective_edges(case):
     subclass sets that keyword itself); late edges only affect the class they are applied to."""
     own = _own_edges(case)
     bases = case.get("bases", {})
-    static = {}  # class -> [(to, slot)] at class-creation time (late edges excluded)
+    # property edges are keyed by the property NAME: a later property of the same name replaces an earlier one, and a
+    # subclass's property replaces the inherited one of that name
+    names = {}
     for i in range(case["n"]):
-        mine = [(j, slot) for (f, j, slot, late) in own if f == i and not late]
+        for k, e in enumerate(x for x in case["edges"] if x["from"] == i and not x["late"]):
+            names[id(e)] = e.get("pname") or f"p{i}_{k}"
+    own_names = [names[id(e)] for e in case["edges"] if not e["late"]]
+    static = {}  # class -> [(to, slot)] at class-creation time (late edges excluded)
+    props_of = {}
+    for i in range(case["n"]):
+        mine_all = [(j, slot, nm) for (f, j, slot, late), nm in zip([o for o in own if not o[3]], own_names) if f == i]
         base = bases.get(str(i))
+        props = dict(props_of[base]) if base is not None else {}
+        for j, slot, nm in mine_all:
+            if slot == "property":
+                props[nm] = j
+        props_of[i] = props
+        mine = [(j, slot) for j, slot, _ in mine_all if slot != "property"]
         if base is not None:
-            my_slots = {slot for _, slot in mine if slot != "property"}
-            mine += [(j, slot) for j, slot in static[base] if slot == "property" or slot not in my_slots]
+            my_slots = {slot for _, slot in mine}
+            mine += [(j, slot) for j, slot in static[base] if slot != "property" and slot not in my_slots]
+        mine += [(j, "property") for j in props.values()]
         static[i] = mine
     out = []
     for i in range(case["n"]):
